@@ -877,6 +877,10 @@ impl DirectAddrUpdateState {
                 debug!("direct addr update done ({:?})", why);
                 #[cfg(feature = "verif-hooks")]
                 crate::verif_hooks::event("netreport.run_end", &[("why", format!("{why:?}"))]);
+                // Release the net_reporter lock before signalling completion: the actor
+                // reacts to the signal with `try_run`, which must be able to take the lock,
+                // otherwise a pending update would stay pending until the next trigger.
+                drop(net_reporter);
                 run_done.send(()).await.ok();
                 #[cfg(feature = "verif-hooks")]
                 crate::verif_hooks::event("netreport.done_signalled", &[]);
